@@ -8,8 +8,8 @@ theorem uses are the four `Num01` facts (`1 == 1`, `0 == 0`, `1 != 0`, `0 != 1`)
 hand-written evaluator compares booleans through their float images.
 
 What is proved of the *model*:   the hand-written evaluator (`ev`, modes w/v/b and the WHEN loops)
-computes the SQL value on every sort-correct expression, for every row (NULL, missing, any value
-kinds) on which the SQL value is defined and no NOT is applied to an UNKNOWN;  the strict expr-lang table (`xl`, WHERE position
+computes the SQL value on every sort-correct expression (NOT included: its operand is evaluated
+three-valued), for every row (NULL, missing, any value kinds) on which the SQL value is defined;  the strict expr-lang table (`xl`, WHERE position
 and the bridge in SELECT position) computes the SQL value whenever no sub-expression is NULL;  the
 SELECT router returns the SQL value whenever the bridge does;  the two memo tables are transparent.
 What is *not* proved (tied by correspondence only): that `xl` describes the third-party expr-lang VM,
@@ -69,32 +69,33 @@ def implEval_eq_sqlEval_full : Prop :=
     sqlValue env row e = .ok v → agrees v (handEval env row e)
 
 /-- PARTIAL (proved): on sort-correct expressions (`shapeOK`: value operands for arithmetic,
-comparison, calls and simple-CASE values; condition-shaped operands for AND/OR/NOT and WHEN) and
-rows on which no operand of a NOT is UNKNOWN (`notKnown`), for every number type, row and
-environment. -/
+comparison, calls and simple-CASE values; condition-shaped operands for AND/OR/NOT and WHEN),
+for every number type, row and environment. -/
 theorem implEval_eq_sqlEval_partial {ν : Type} [NumOps ν] [Num01 ν] (env : Env ν) (row : Row ν) (e : Expr)
-    (v : Value ν) (h : sqlValue env row e = .ok v) (hs : shapeOK e .e = true) (hp : notKnown env row e = true) :
+    (v : Value ν) (h : sqlValue env row e = .ok v) (hs : shapeOK e .e = true) :
     agrees v (handEval env row e) :=
-  ((good_all env row e).1 v h hs hp).ag
+  ((good_all env row e).1 v h hs).ag
 
 /-- on value expressions (no condition inside) the agreement is exact, NULL flagged as NULL -/
 theorem implEval_exact {ν : Type} [NumOps ν] [Num01 ν] (env : Env ν) (row : Row ν) (e : Expr)
-    (v : Value ν) (h : sqlValue env row e = .ok v) (hs : shapeOK e .e = true) (hp : notKnown env row e = true)
+    (v : Value ν) (h : sqlValue env row e = .ok v) (hs : shapeOK e .e = true)
     (hb : boolTyped e = false) : handEval env row e = valueRes v :=
-  ((good_all env row e).1 v h hs hp).exact hb
+  ((good_all env row e).1 v h hs).exact hb
 
 /-- as a condition (CASE WHEN, operand of AND/OR) the evaluator says TRUE exactly when SQL does -/
 theorem implEval_condition {ν : Type} [NumOps ν] [Num01 ν] (env : Env ν) (row : Row ν) (e : Expr)
-    (v : Value ν) (h : sqlValue env row e = .ok v) (hs : shapeOK e .e = true) (hp : notKnown env row e = true)
+    (v : Value ν) (h : sqlValue env row e = .ok v) (hs : shapeOK e .e = true)
     (hb : boolShaped e = true) (ht : isTruth v = true) :
     ev env row e .b = .val (.bool v.isTrue) false :=
-  ((good_all env row e).1 v h hs hp).bmode hb ht
+  ((good_all env row e).1 v h hs).bmode hb ht
 
-/-- negation witness for the full statement: `NOT (n > 1)` with `n` NULL is UNKNOWN in SQL, the
-two-valued `evaluateBoolOperator` makes it TRUE — class `not-over-unknown` (= ¬ `notKnown`). -/
+/-- negation witness for the full statement: `f = (n > 1)` with `f` FALSE and `n` NULL is UNKNOWN in
+SQL; the evaluator hands the comparison its operand's two-valued "not true" (FALSE) and answers
+TRUE — class `condition-as-operand` (= ¬ `shapeOK`: a condition used as a value operand). -/
 theorem implEval_eq_sqlEval_fails : ¬ implEval_eq_sqlEval_full := by
   intro h
-  have := h env0 row0 (.not (.paren (.cmp .gt (.col cn) (n 1)))) .null (by decide)
+  have := h env0 [(['f'], .bool false), (cn, .null)]
+    (.cmp .eq (.col ['f']) (.paren (.cmp .gt (.col cn) (n 1)))) .null (by decide)
   revert this
   decide
 
@@ -255,11 +256,11 @@ SQL value.  That proviso is exactly what is *not* proved of expr-lang; `bridge_s
 it for the table model on NULL-free rows. -/
 theorem engine_select_sound {ν : Type} [NumOps ν] [Num01 ν] [DecidableEq ν] (env : Env ν) (row : Row ν)
     (e : Expr) (v : Value ν) (t : TextFlags) (bridge : Option (Value ν))
-    (h : sqlValue env row e = .ok v) (hs : shapeOK e .e = true) (hp : notKnown env row e = true)
+    (h : sqlValue env row e = .ok v) (hs : shapeOK e .e = true)
     (hb : ∀ v', bridge = some v' → sameObs (obsV v) (obsV v') = true) :
     sameObs (obsV v) (obsV (engineSelect (routeOf t) (resOpt (handEval env row e)) bridge)) = true := by
   have hand : ∃ hv, resOpt (handEval env row e) = some hv ∧ sameObs (obsV v) (obsV hv) = true := by
-    rcases implEval_eq_sqlEval_partial env row e v h hs hp with hh | ⟨hn, hh⟩
+    rcases implEval_eq_sqlEval_partial env row e v h hs with hh | ⟨hn, hh⟩
     · refine ⟨v, ?_, by simp [sameObs]⟩
       rw [hh]; cases v <;> simp [resOpt, valueRes, Value.isNull]
     · refine ⟨.bool false, by rw [hh]; simp [resOpt], ?_⟩
@@ -275,10 +276,10 @@ theorem engine_select_sound {ν : Type} [NumOps ν] [Num01 ν] [DecidableEq ν] 
 table model as the bridge -/
 theorem engine_select_nonnull {ν : Type} [NumOps ν] [Num01 ν] [DecidableEq ν] (env : Env ν) (row : Row ν)
     (e : Expr) (v : Value ν) (t : TextFlags)
-    (h : sqlValue env row e = .ok v) (hs : shapeOK e .e = true) (hp : notKnown env row e = true)
+    (h : sqlValue env row e = .ok v) (hs : shapeOK e .e = true)
     (hn : allNonNull env row e = true) :
     sameObs (obsV v) (obsV (engineSelect (routeOf t) (resOpt (handEval env row e)) (xl env row true e))) = true := by
-  apply engine_select_sound env row e v t _ h hs hp
+  apply engine_select_sound env row e v t _ h hs
   intro v' hx
   have := bridge_sound_nonnull env row e v v' h hn hx
   subst this
@@ -287,11 +288,11 @@ theorem engine_select_nonnull {ν : Type} [NumOps ν] [Num01 ν] [DecidableEq ν
 /-- the hand-first routes do not depend on the bridge at all: quote-free, parenthesis-free text -/
 theorem engine_select_handfirst {ν : Type} [NumOps ν] [Num01 ν] [DecidableEq ν] (env : Env ν) (row : Row ν)
     (e : Expr) (v : Value ν) (t : TextFlags) (bridge : Option (Value ν))
-    (h : sqlValue env row e = .ok v) (hs : shapeOK e .e = true) (hp : notKnown env row e = true)
+    (h : sqlValue env row e = .ok v) (hs : shapeOK e .e = true)
     (hr : t.paren = false) (hq : t.quote = false ∨ t.dot = true) :
     sameObs (obsV v) (obsV (engineSelect (routeOf t) (resOpt (handEval env row e)) bridge)) = true := by
   have hand : ∃ hv, resOpt (handEval env row e) = some hv ∧ sameObs (obsV v) (obsV hv) = true := by
-    rcases implEval_eq_sqlEval_partial env row e v h hs hp with hh | ⟨hn, hh⟩
+    rcases implEval_eq_sqlEval_partial env row e v h hs with hh | ⟨hn, hh⟩
     · refine ⟨v, ?_, by simp [sameObs]⟩
       rw [hh]; cases v <;> simp [resOpt, valueRes, Value.isNull]
     · refine ⟨.bool false, by rw [hh]; simp [resOpt], ?_⟩
@@ -350,11 +351,13 @@ example : handEval env0 row0 (.caseV (.col cs) (mkChain [(.str ['q'], n 7)] none
 example : handEval env0 row0 (.caseV (.col cn) (mkChain [(.col cn, n 7)] (some (n 0)))) = .val (.num 0) false := by decide
 -- a call sees the evaluated arguments, NULL included
 example : handEval env0 row0 (.call2 ['c'] (.arith .add (.col cn) (n 1)) (n 5)) = .val (.num 5) false := by decide
--- hypotheses of the partial theorem are satisfiable together, NOT included
-example : shapeOK (.or (.cmp .gt (.col cn) (n 1)) (.not (.cmp .eq (.col cb) (n 2)))) .e = true ∧
-    notKnown env0 row0 (.or (.cmp .gt (.col cn) (n 1)) (.not (.cmp .eq (.col cb) (n 2)))) = true := by decide
+-- hypotheses of the partial theorem are satisfiable, NOT included; NOT over UNKNOWN is not true
+example : shapeOK (.or (.cmp .gt (.col cn) (n 1)) (.not (.cmp .eq (.col cb) (n 2)))) .e = true := by decide
 example : handEval env0 row0 (.not (.cmp .eq (.col cb) (n 2))) = .val (.bool false) false := by decide
-example : notKnown env0 row0 (.not (.paren (.cmp .gt (.col cn) (n 1)))) = false := by decide
+example : handEval env0 row0 (.not (.paren (.cmp .gt (.col cn) (n 1)))) = .val (.bool false) false := by decide
+example : sqlValue env0 row0 (.not (.paren (.cmp .gt (.col cn) (n 1)))) = .ok .null := by decide
+example : handEval env0 row0 (.not (.not (.paren (.cmp .gt (.col ca) (n 1))))) = .val (.bool true) false := by decide
+example : handEval env0 row0 (.not (.paren (.and (.cmp .gt (.col cn) (n 1)) (.cmp .gt (.col ca) (n 5))))) = .val (.bool true) false := by decide
 -- WHERE on a NULL-free row
 example : allNonNull env0 row0 (.and (.cmp .gt (.col ca) (n 2)) (.cmp .ne (.col cs) (.str ['k']))) = true := by decide
 example : whereEval env0 row0 (.and (.cmp .gt (.col ca) (n 2)) (.cmp .ne (.col cs) (.str ['k']))) = true := by decide
